@@ -236,6 +236,36 @@ def a5(ctx):
     yield Ob(key_of("C03-A5", b.path, "vec-alignment"), ok, "AlignedVec::new(cap, %s)" % (short(av[0]["args"][1], 80) if av else "?"), b.loc())
 
 
+@rule("C03-A7", "C03", 3, "the Vec backing keeps the alignment it was created with: every Layout the crate builds for the global allocator is built inside AlignedVec, from the "
+      "vec's own (cap, align) or - in AlignedVec::new - from the (capacity, align) the new vec records; no other function builds a Layout or calls realloc / alloc "
+      "(a block resized or re-created under a smaller alignment moves the base of the arena off the boundary every aligned offset is computed against: C14's "
+      "align_to and C03's aligned allocations return misaligned pointers)", also=("C14", "C18"))
+def a7(ctx):
+    n = 0
+    for b in ctx.facts.own:
+        sites = [(bi, t) for bi, t in b.calls() if re.search(r"alloc::Layout::(from_size_align(_unchecked)?|new|array|for_value)$|alloc::(alloc|alloc_zeroed|realloc|dealloc)$", t.get("callee") or "")]
+        if not sites:
+            continue
+        ev, res = ctx.eval(b)
+        rets = [r["value"] for r in res.log if r["kind"] == "ret0" and not r["chain"]]
+        for e in res.log:
+            # Layouts built by callees that are read through belong to the callee's own turn; a private helper spliced into its caller is judged here
+            if e["kind"] != "call" or e["chain"] or not re.search(r"alloc::Layout::", e["callee"]):
+                continue
+            n += 1
+            ok = e["callee"].endswith("from_size_align_unchecked") or e["callee"].endswith("from_size_align")
+            if ok:
+                size, al = e["args"][0], e["args"][1]
+                m1 = re.fullmatch(r"(.*)(?:\.|->)cap(@v/\d+)?", show(size))
+                m2 = re.fullmatch(r"(.*)(?:\.|->)align(@v/\d+)?", show(al))
+                # the vec's own fields: the same object on both sides (`self` inside AlignedVec, the backend's vec elsewhere)
+                own = bool(m1 and m2 and m1.group(1) == m2.group(1))
+                recorded = b.path == "common::AlignedVec::new" and len(rets) == 1 and tag(rets[0]) == "struct" and struct_get(rets[0], "cap") == size and struct_get(rets[0], "align") == al
+                ok = own or recorded
+            yield Ob(key_of("C03-A7", b.path, "layout-from-own-cap-align"), ok, "Layout(%s, %s) in %s" % (short(e["args"][0], 40), short(e["args"][1], 60), b.path), ctx.loc(e))
+    yield Ob(key_of("C03-A7", "common::AlignedVec", "layout-sites-seen"), n >= 2, "%d Layout construction site(s) (new, layout) - positive control" % n, None, trivial=True)
+
+
 @rule("C03-A6", "C03", 2, "file-backed arenas: the mapping offset is checked against the alignment the arena promises (memmap2 returns page boundary + offset % page, so the base "
       "address is only as aligned as the offset): an offset that is not a multiple of max(maximum_alignment, align_of Header) must be refused, otherwise every aligned "
       "offset is a misaligned address and the in-file header is read through a misaligned pointer", configs=("memmap", "memmap-nooverflow", "memmap-tracing"), also=("C04", "C16"))
